@@ -137,6 +137,9 @@ pub struct NodeCfg {
     pub split_app_store: bool,
     /// this node exists from the start (false: created later by Restart — a spare)
     pub boot: bool,
+    /// the node's store starts without a configuration (a freshly created, uninitialised peer:
+    /// it learns everything from the first snapshot)
+    pub empty_conf: bool,
     pub group_id: u64,
 }
 
@@ -166,6 +169,7 @@ impl NodeCfg {
             skip_sync_when_allowed: false,
             split_app_store: false,
             boot: true,
+            empty_conf: false,
             group_id: 0,
         }
     }
